@@ -39,7 +39,7 @@ ROUTINES = [
     "ts_dqn", "ts_nature", "ts_ddqn", "ts_per", "ts_ddpg", "ts_td3", "ts_td3lap",
     "ts_sac", "ddpg_actor", "sac_actor", "entropy", "td7_critic", "td7_actor",
     "sale", "encoder", "mrq_cp", "ppo", "a2c_policy", "value_fn", "reinforce_policy",
-    "ac_policy", "train_epoch", "soft", "hard",
+    "ac_policy", "train_epoch", "train_ensemble", "pets_model_update", "soft", "hard",
 ]
 LOOP_ALGOS = ["dqn", "nature_dqn", "ddqn", "per", "ddpg", "td3", "td3_lap", "sac",
               "td7", "mrq"]
@@ -260,6 +260,30 @@ def build(routine, rng):
         Y = jnp.asarray(rng.normal(size=(10, 2)), jnp.float32)
         idx = jnp.asarray(rng.integers(0, 10, size=(2, E, 3)))
         call = lambda: pe.train_epoch(model, o, X, Y, idx)  # noqa: E731
+        return call, dict(model=model, model_opt=o), {"model", "model_opt"}
+    if routine in ("train_ensemble", "pets_model_update"):
+        from rl_blox.algorithm import pets
+        from rl_blox.blox import probabilistic_ensemble as pe
+        from vf.props.c17 import make_ensemble
+        E = int(rng.integers(1, 4))
+        bs = int(rng.choice([1, 2, 4, 8]))
+        # data-set sizes whose bootstrapped part is / is not a multiple of bs
+        nb = bs * int(rng.integers(1, 5)) + int(rng.choice([0, 0, 1]) if bs > 1 else 0)
+        train_size = float(rng.choice([0.5, 1.0]))
+        n = int(np.ceil(nb / train_size))
+        while int(train_size * n) != nb:
+            n += 1
+        model = make_ensemble(rng, E, 5, 3)
+        o = parts.opt(model)
+        X = jnp.asarray(rng.normal(size=(n, 5)), jnp.float32)
+        Y = jnp.asarray(rng.normal(size=(n, 3)), jnp.float32)
+        if routine == "train_ensemble":
+            call = lambda: pe.train_ensemble(model, o, train_size, X, Y, 2, bs, key)  # noqa: E731
+        else:
+            st = pe.EnsembleTrainState(model=model, optimizer=o,
+                                       train_size=train_size, batch_size=bs)
+            call = lambda: pets.update_dynamics_model(  # noqa: E731
+                st, X[:, :3], X[:, 3:], X[:, :3] + Y, key, 2)
         return call, dict(model=model, model_opt=o), {"model", "model_opt"}
     if routine in ("soft", "hard"):
         from rl_blox.blox.target_net import (
